@@ -108,6 +108,14 @@ func (c *c10) Summary(w *sim.World) (string, []string) {
 var C10 = register(&HistProp{ID: "C10",
 	Genesis: func(t *rapid.T) *sim.GenSpec { return sim.DrawGenesis(t, sim.GenOpts{}) },
 	Next: func(g *sim.G, i int) *sim.Op {
+		if op := queuedOp(g); op != nil {
+			return op
+		}
+		if g.Pct("rolerollback", 6) {
+			ops := roleRollbackProbe(g, "rrb")
+			queueOps(g, ops[1:]...)
+			return ops[0]
+		}
 		// right after a role moved: the previous holder (and the new one) try an action of that role
 		if n := len(g.W.Steps); n > 0 && g.Pct("followup", 50) {
 			last := g.W.Steps[n-1]
@@ -376,11 +384,49 @@ func c11extra(c *strict, w *sim.World, s *sim.Step) *Viol {
 	return nil
 }
 
+// roleRollbackProbe: a role update by the owner in one transaction with a failing message (so the SDK
+// discards it), then the account that was *not* given the role tries an action of that role, then the
+// real holder does.
+func roleRollbackProbe(g *sim.G, label string) []*sim.Op {
+	m := g.W.Model
+	slot := g.Int(label+"/slot", 1, 3)
+	upd := []string{"", "UpdateAttesterManager", "UpdatePauser", "UpdateTokenController"}[slot]
+	x := sim.Acct(g.Acct(label + "/x"))
+	if x == m.Roles[slot] {
+		x = sim.Acct((sim.AcctOfBytes(sdk.MustAccAddressFromBech32(x)) + 1) % sim.NAccts)
+	}
+	a := sim.TxOp("admin:"+upd, validAdmin(upd, m.Roles[0], x))
+	failer := sim.Acct(g.Acct(label + "/f"))
+	if m.Pending != nil && *m.Pending == failer {
+		failer = sim.Acct((sim.AcctOfBytes(sdk.MustAccAddressFromBech32(failer)) + 1) % sim.NAccts)
+	}
+	b := sim.TxOp("admin:AcceptOwner", &types.MsgAcceptOwner{From: failer})
+	var acts []string
+	for _, t := range sim.AdminTypes {
+		if sim.RoleSlotOf(t) == slot {
+			acts = append(acts, t)
+		}
+	}
+	ops := []*sim.Op{sim.Multi(a, b), g.AdminOpOf(label+"/byx", sim.Pick(g, label+"/t1", acts), x)}
+	if sim.AcctOfBytes(sdk.MustAccAddressFromBech32(m.Roles[slot])) >= 0 {
+		ops = append(ops, g.AdminOpOf(label+"/byholder", sim.Pick(g, label+"/t2", acts), m.Roles[slot]))
+	}
+	return ops
+}
+
 var roleTypes = []string{"UpdateOwner", "UpdateOwner", "AcceptOwner", "AcceptOwner", "UpdateAttesterManager", "UpdatePauser", "UpdateTokenController"}
 
 var C11 = register(&HistProp{ID: "C11",
 	Genesis: func(t *rapid.T) *sim.GenSpec { return sim.DrawGenesis(t, sim.GenOpts{}) },
 	Next: func(g *sim.G, i int) *sim.Op {
+		if op := queuedOp(g); op != nil {
+			return op
+		}
+		if g.Pct("rolerollback", 5) {
+			ops := roleRollbackProbe(g, "rrb")
+			queueOps(g, ops[1:]...)
+			return ops[0]
+		}
 		if g.Pct("role", 70) {
 			return g.AdminOp("role", 60, roleTypes)
 		}
